@@ -403,3 +403,67 @@ def unicode_sensitive(pattern, flags):
             % (", ".join(hit), ", ".join({"i": "U+0130/U+0131", "s": "U+017F", "k": "U+212A"}[c] for c in hit))
         )
     return reasons
+
+
+# ---------------------------------------------------------------------------------------------
+# lazy iterators: map/filter/zip return lists on Python 2.7 and one-shot iterators on Python 3;
+# generator expressions, iter(), reversed(), enumerate() are one-shot on both
+
+LAZY_BOTH = {"iter", "reversed", "enumerate"}
+LAZY_PY3 = {"map", "filter", "zip"}
+CONSUMERS = {
+    "list", "tuple", "set", "frozenset", "dict", "sorted", "sum", "min", "max", "any", "all", "OrderedDict", "next", "len_hint",
+    "enumerate", "zip", "map", "filter", "reversed", "iter", "reduce", "D", "str",
+}
+CONSUMER_METHODS = {"join", "extend", "update", "fromkeys", "union", "intersection", "difference", "issubset", "issuperset"}
+
+
+def lazy_kind(n):
+    if isinstance(n, ast.GeneratorExp):
+        return "generator expression"
+    if isinstance(n, ast.Call) and isinstance(n.func, ast.Name) and n.func.id in LAZY_BOTH | LAZY_PY3:
+        return "%s()" % n.func.id
+    return None
+
+
+def stored_lazy(module, root):
+    """Lazy iterator objects created under `root` that are not consumed on the spot (argument of a
+    consuming call, iterable of a loop / comprehension, unpacked) but become part of the value:
+    [(node, kind, how)] with how in 'stored' (the value itself / an element of a container /
+    an argument of a non-consuming call), 'indexed', 'len'."""
+    out = []
+    for n in ast.walk(root):
+        kind = lazy_kind(n)
+        if kind is None:
+            continue
+        p = module.parent(n)
+        if n is root:
+            out.append((n, kind, "stored"))
+            continue
+        if isinstance(p, ast.Call):
+            if n in p.args or any(kw.value is n for kw in p.keywords):
+                f = p.func
+                if isinstance(f, ast.Name) and f.id in CONSUMERS:
+                    continue
+                if isinstance(f, ast.Attribute) and f.attr in CONSUMER_METHODS:
+                    continue
+                if isinstance(f, ast.Name) and f.id == "len":
+                    out.append((n, kind, "len"))
+                    continue
+                out.append((n, kind, "stored"))
+                continue
+        if isinstance(p, ast.comprehension) and p.iter is n:
+            continue
+        if isinstance(p, (ast.For, ast.AsyncFor)) and p.iter is n:
+            continue
+        if isinstance(p, ast.Starred):
+            continue
+        if isinstance(p, ast.Subscript) and p.value is n:
+            out.append((n, kind, "indexed"))
+            continue
+        if isinstance(p, ast.Compare) and any(isinstance(op, (ast.In, ast.NotIn)) for op in p.ops) and n in p.comparators:
+            continue  # membership test consumes it on the spot
+        if isinstance(p, ast.Assign) and isinstance(p.targets[0], (ast.Tuple, ast.List)) and p.value is n:
+            continue  # unpacking
+        out.append((n, kind, "stored"))
+    return out
